@@ -482,6 +482,15 @@ def read_ndjson(path):
     return out
 
 
+def read_ndjson_line(line):
+    line = line.strip()
+    if not line:
+        return []
+    if "inf" in line or "nan" in line:
+        line = _NONFINITE.sub(lambda m: (m.group(1) + "Infinity") if m.group(2).lower() == "inf" else "NaN", line)
+    return [json.loads(line)]
+
+
 def write_ndjson(path, recs):
     with open(path, "w") as f:
         for r in recs:
